@@ -15,6 +15,11 @@ pub enum C13Case {
     Mut { kt: Kt, file: u8, byte: u8, values: Vec<u8>, #[serde(default)] empty: bool },
     /// file `file` of a `kt` map replaced by `len` bytes of a foreign format
     Foreign { kt: Kt, file: u8, len: u32, empty: bool },
+    /// files of a `t` map of which the files in `missing` (bit 0 htx, 1 key, 2 val) are absent
+    /// (or, with `zero_len`, present but empty), opened as `u`
+    Missing { t: Kt, u: Kt, missing: u8, zero_len: bool, empty: bool },
+    /// file `file` of a `kt` map with its whole header (`all`: the whole file) zeroed, same length
+    Zeroed { kt: Kt, file: u8, all: bool, buckets: u64 },
 }
 
 fn is_d7(t: Kt, u: Kt) -> bool {
@@ -86,6 +91,18 @@ fn cases(tier: Tier) -> (Vec<C13Case>, u64) {
             }
         }
     }
+    for t in Kt::ALL {
+        for u in Kt::ALL {
+            if t == u || is_d7(t, u) {
+                continue;
+            }
+            for missing in 1..7u8 {
+                for zero_len in [false, true] {
+                    c.push(C13Case::Missing { t, u, missing, zero_len, empty: (missing + zero_len as u8) % 2 == 0 });
+                }
+            }
+        }
+    }
     for kt in Kt::ALL {
         for file in 0..3u8 {
             for byte in 0..16u8 {
@@ -98,6 +115,9 @@ fn cases(tier: Tier) -> (Vec<C13Case>, u64) {
                         empty,
                     });
                 }
+            }
+            for (all, buckets) in [(false, 8u64), (true, 8), (false, 1024), (true, 1024)] {
+                c.push(C13Case::Zeroed { kt, file, all, buckets });
             }
             for len in [1u32, 8, 16, 100, 127, 128, 191, 192, 193, 4096] {
                 for empty in [false, true] {
@@ -119,10 +139,14 @@ fn some_key(kt: Kt, i: u64) -> Vec<u8> {
 
 /// build a small map of type kt (name "x") and return its three files
 fn base_image(kt: Kt, empty: bool, w: &WCtx) -> Result<[Vec<u8>; 3], Failure> {
+    base_image_n(kt, empty, 8, w)
+}
+
+fn base_image_n(kt: Kt, empty: bool, buckets: u64, w: &WCtx) -> Result<[Vec<u8>; 3], Failure> {
     let d = w.fresh_dir();
     let r = (|| {
         let db = abyssiniandb::open_file(&d).map_err(|e| Failure::new("infra", None, format!("open_file: {e}")))?;
-        let mut m = open_map(&db, "x", kt, &Params::plain(Buckets::BucketsSize(8)))
+        let mut m = open_map(&db, "x", kt, &Params::plain(Buckets::BucketsSize(buckets)))
             .map_err(|e| Failure::new("infra", None, format!("open: {e}")))?;
         if !empty {
             for i in 0..5u64 {
@@ -142,15 +166,23 @@ fn base_image(kt: Kt, empty: bool, w: &WCtx) -> Result<[Vec<u8>; 3], Failure> {
 
 /// write the files, try to open as `as_kt`, classify
 fn attempt(files: &[Vec<u8>; 3], as_kt: Kt, w: &WCtx, what: &str) -> Result<(), Failure> {
+    attempt_p(files, [true; 3], 8, as_kt, w, what)
+}
+
+/// `present[i] == false`: file i is not written at all (absent)
+fn attempt_p(files: &[Vec<u8>; 3], present: [bool; 3], buckets: u64, as_kt: Kt, w: &WCtx, what: &str) -> Result<(), Failure> {
+    crate::exec::tick();
     let d = w.fresh_dir();
     let names = file_names("x");
     for i in 0..3 {
-        std::fs::write(d.join(&names[i]), &files[i]).map_err(|e| Failure::new("infra", None, format!("write: {e}")))?;
+        if present[i] {
+            std::fs::write(d.join(&names[i]), &files[i]).map_err(|e| Failure::new("infra", None, format!("write: {e}")))?;
+        }
     }
     crate::runner::quiet_panics(true);
     let res = std::panic::catch_unwind(std::panic::AssertUnwindSafe(|| -> Result<Option<String>, String> {
         let db = abyssiniandb::open_file(&d).map_err(|e| format!("open_file: {e}"))?;
-        match open_map(&db, "x", as_kt, &Params::plain(Buckets::BucketsSize(8))) {
+        match open_map(&db, "x", as_kt, &Params::plain(Buckets::BucketsSize(buckets))) {
             Err(_) => Ok(None),
             Ok(mut m) => {
                 // the open was accepted: show what a lookup would return
@@ -160,7 +192,19 @@ fn attempt(files: &[Vec<u8>; 3], as_kt: Kt, w: &WCtx, what: &str) -> Result<(), 
         }
     }));
     crate::runner::quiet_panics(false);
-    let after = read_files(&d, "x");
+    let mut after_v: Vec<Option<Vec<u8>>> = Vec::new();
+    for i in 0..3 {
+        after_v.push(std::fs::read(d.join(&names[i])).ok());
+    }
+    // an absent file may be created by the attempt, and a zero-length file is, by the crate's
+    // documented convention, a file still to be created (it carries no signature to respect):
+    // both are outside the statement's premise and are not compared
+    let keep = |i: usize| present[i] && !files[i].is_empty();
+    let after: std::io::Result<[Vec<u8>; 3]> = Ok([
+        if keep(0) { after_v[0].clone().unwrap_or_default() } else { files[0].clone() },
+        if keep(1) { after_v[1].clone().unwrap_or_default() } else { files[1].clone() },
+        if keep(2) { after_v[2].clone().unwrap_or_default() } else { files[2].clone() },
+    ]);
     w.cleanup(&d);
     match res {
         Ok(Ok(Some(lookup))) => {
@@ -236,6 +280,50 @@ fn run_c13(c: &C13Case, w: &WCtx) -> Result<(Report, u64), Failure> {
             rep.bump("foreign_file_cases");
             Ok((rep, 1))
         }
+        C13Case::Missing { t, u, missing, zero_len, empty } => {
+            let mut files = base_image(*t, *empty, w)?;
+            let mut present = [true; 3];
+            for i in 0..3 {
+                if missing & (1 << i) != 0 {
+                    if *zero_len {
+                        files[i] = Vec::new();
+                    } else {
+                        present[i] = false;
+                    }
+                }
+            }
+            let what = format!(
+                "files of a{} {} map of which {} {} (mask htx=1,key=2,val=4: {}), opened as {}",
+                if *empty { "n empty" } else { "" },
+                t.name(),
+                if *zero_len { "some are zero-length" } else { "some are absent" },
+                "",
+                missing,
+                u.name()
+            );
+            attempt_p(&files, present, 8, *u, w, &what)?;
+            rep.bump("missing_file_cases");
+            Ok((rep, 1))
+        }
+        C13Case::Zeroed { kt, file, all, buckets } => {
+            let mut files = base_image_n(*kt, false, *buckets, w)?;
+            let hl = if *file == 0 { 128 } else { 192 };
+            let f = &mut files[*file as usize];
+            let n = if *all { f.len() } else { hl.min(f.len()) };
+            for b in f.iter_mut().take(n) {
+                *b = 0;
+            }
+            let what = format!(
+                "{} map ({} buckets) whose .{} file has its {} zeroed (length unchanged)",
+                kt.name(),
+                buckets,
+                ["htx", "key", "val"][*file as usize],
+                if *all { "whole content" } else { "header" }
+            );
+            attempt_p(&files, [true; 3], *buckets, *kt, w, &what)?;
+            rep.bump("zeroed_header_cases");
+            Ok((rep, 1))
+        }
         C13Case::Mut { kt, file, byte, values, empty } => {
             let base = base_image(*kt, *empty, w)?;
             let mut n = 0;
@@ -269,7 +357,7 @@ impl Prop for C13 {
         "C13"
     }
     fn rule(&self) -> String {
-        "enumeration: (1) every ordered pair (T,U) of distinct key types x four file positions (all three files written for T, or exactly one of .htx/.key/.val written for T and the rest for U), opened as U; each for populated maps and for maps that were only created; (2) for every key type x each of the three files x {populated, created-only} x each of the 16 signature bytes (8 format magic + 8 type signature): the byte replaced by every other value (quick: +-1, case flip, every single-bit flip, 0x00, 0xFF and letters used by other signatures), opened as the same type; (3) one file replaced by 1..4096 bytes of a foreign format. Oracle: the open returns Err or panics (never Ok), and afterwards the three files are byte-identical to what was written. Every case is distinct by construction and non-trivial (each one is a different foreign or damaged header). The ordered pairs (u64,vu64) and (vu64,u64) are a known finding (D7: shared type signature) and are excluded: 16 cases, counted in excluded_draws."
+        "enumeration: (1) every ordered pair (T,U) of distinct key types x four file positions (all three files written for T, or exactly one of .htx/.key/.val written for T and the rest for U), opened as U; each for populated maps and for maps that were only created; (2) for every key type x each of the three files x {populated, created-only} x each of the 16 signature bytes (8 format magic + 8 type signature): the byte replaced by every other value (quick: +-1, case flip, every single-bit flip, 0x00, 0xFF and letters used by other signatures), opened as the same type; (3) one file replaced by 1..4096 bytes of a foreign format; (4) files of a T map of which any non-empty proper subset is absent or zero-length, opened as U (the surviving files must be unchanged); (5) a file whose header or whole content is zeroed with its length kept. Oracle: the open returns Err or panics (never Ok), and afterwards the three files are byte-identical to what was written. Every case is distinct by construction and non-trivial (each one is a different foreign or damaged header). The ordered pairs (u64,vu64) and (vu64,u64) are a known finding (D7: shared type signature) and are excluded: 16 cases, counted in excluded_draws."
             .to_string()
     }
     fn n_cases(&self, tier: Tier) -> u64 {
@@ -293,7 +381,7 @@ impl Prop for C13 {
                 out.labels = rep.labels;
                 // each evaluated (case, value) is distinct
                 match c {
-                    C13Case::Pair { .. } | C13Case::Foreign { .. } => out.nontrivial.push(digest_of(c)),
+                    C13Case::Pair { .. } | C13Case::Foreign { .. } | C13Case::Missing { .. } | C13Case::Zeroed { .. } => out.nontrivial.push(digest_of(c)),
                     C13Case::Mut { values, .. } => {
                         for v in values {
                             out.nontrivial.push(digest_of(&(c, v)));
